@@ -115,26 +115,27 @@ class WBS:
             all_tasks_list.append(r)
             all_tasks_list += [t for t in r.all_children]
 
-        all_tasks = {task.id: task for task in all_tasks_list}
+        # Tasks are told apart by object identity: a task outside this WBS may carry the id of a member
+        all_tasks = {id(task): task for task in all_tasks_list}
 
-        cloned_tasks = {task.id: task.clone() for task in all_tasks.values()}
+        cloned_tasks = {id(task): task.clone() for task in all_tasks.values()}
 
         # Some tasks in WBS can have predecessors or successors outside WBS (i.e. from another project).
         # This predecessors/successors should not be copied.
         for t in all_tasks.values():
             for pr in t.predecessors:
                 if pr.wbs != self:
-                    cloned_tasks.setdefault(pr.id, pr)
+                    cloned_tasks.setdefault(id(pr), pr)
             for sc in t.successors:
                 if sc.wbs != self:
-                    cloned_tasks.setdefault(sc.id, sc)
+                    cloned_tasks.setdefault(id(sc), sc)
 
         for t in all_tasks.values():
-            c = cloned_tasks[t.id]
-            c.parent = cloned_tasks.get(all_tasks[t.id].parent.id) if all_tasks[t.id].parent else None
-            c.children = [cloned_tasks[ch.id] for ch in all_tasks[t.id].children]
-            c.predecessors = [cloned_tasks[ch.id] for ch in all_tasks[t.id].predecessors if ch.id in cloned_tasks]
-            c.successors = [cloned_tasks[ch.id] for ch in all_tasks[t.id].successors if ch.id in cloned_tasks]
+            c = cloned_tasks[id(t)]
+            c.parent = cloned_tasks.get(id(t.parent)) if t.parent else None
+            c.children = [cloned_tasks[id(ch)] for ch in t.children]
+            c.predecessors = [cloned_tasks[id(ch)] for ch in t.predecessors if id(ch) in cloned_tasks]
+            c.successors = [cloned_tasks[id(ch)] for ch in t.successors if id(ch) in cloned_tasks]
 
         return cloned_tasks
 
@@ -143,7 +144,7 @@ class WBS:
         cloned_tasks = self.__clone_tasks(roots)
 
         cloned_project = WBS()
-        cloned_project.roots = [cloned_tasks[r.id] for r in roots]
+        cloned_project.roots = [cloned_tasks[id(r)] for r in roots]
 
         for k in self.__dict__.keys():
             if not k.startswith('_'):
